@@ -42,7 +42,7 @@ Mismatch == /\ l <= Len(Trace) /\ k <= Len(Ev(l)) /\ ~bad
             /\ bad' = TRUE /\ UNCHANGED <<l, k, vars>>
 EndLine == /\ l <= Len(Trace) /\ (k > Len(Ev(l)) \/ bad)
            /\ Serialize(ToJson([case |-> Trace[l].case,
-                                fails |-> IF C17_OK(Trace[l].obs) THEN {} ELSE {"C17"},
+                                fails |-> IF C17_OK(Trace[l].obs) THEN {} ELSE {"C17", "C13"},   \* a wrong result here is a wrongly signed message
                                 drift |-> ~Conform(Trace[l].obs)]) \o "\n", IOEnv.VERIF_VERDICT,
                         [format |-> "TXT", charset |-> "UTF-8", openOptions |-> <<"WRITE", "CREATE", "APPEND">>]).exitValue = 0
            /\ ResetSpecVars /\ l' = l + 1 /\ k' = 1 /\ bad' = FALSE
